@@ -28,13 +28,15 @@ structure DSt where
   restore : Bool := false     -- fix 09980379c (F36) present in the tree under test
   degfix : Bool := false      -- fix 5852532a8 (F130) present in the tree under test
   ordQ : List (List Float × Unit) := []
-  cfsfix : Bool := false      -- repair of F450 present in the tree under test (no uninformed part when both indices coincide)
+  ctorfix : Bool := false     -- repair of F451 present in the tree under test (SE-typed compound needs one R^n and one SO(n) subspace)
+  cfsfix : Bool := false      -- fix 1d61cd7e5 (F450) present in the tree under test (no uninformed part when both indices coincide)
   layout : Layout := ⟨false, 0, 0⟩   -- isCompound / informedIdx_ / uninformedIdx_ from the model's own `classify`
   subKinds : List String := []        -- component kinds of a compound space, in order: "rv" | "so2" | "so3"
 
 def init (ts : List String) : Option DSt :=
   match ts with
-  | "phs" :: rest => some { restore := rest.contains "restore=1", degfix := rest.contains "degfix=1", cfsfix := rest.contains "cfsfix=1" }
+  | "phs" :: rest =>
+    some { restore := rest.contains "restore=1", degfix := rest.contains "degfix=1", cfsfix := rest.contains "cfsfix=1", ctorfix := rest.contains "ctorfix=1" }
   | _ => none
 
 def takeVec (ts : List String) (n : Nat) : Option (List Float × List String) :=
@@ -370,7 +372,7 @@ def step (st : DSt) (ts : List String) : DSt × String :=
     | some obj, some ns, some gs, some ng, some cmp, some cast, some ty, some subs =>
       let i : CtorIn := { hasObjective := obj != 0, numStarts := ns, goalSampleable := gs != 0, numGoals := ng,
                           space := { compound := cmp != 0, castOk := cast != 0, ty := ty, subs := subs } }
-      match ctorCheck i with
+      match ctorCheckG st.ctorfix i with
       | .ok L => (st, s!"ctor ok compound={if L.compound then 1 else 0} inf={L.inf} un={L.un} hasun={if L.hasUninformedG st.cfsfix then 1 else 0}")
       | .error e => (st, s!"ctor throw={e.code}")
     | _, _, _, _, _, _, _, _ => (st, "bad-op")
